@@ -123,6 +123,8 @@ class WorldC07:
         self.ops = []
         self.op_calls = []
         self.digest0 = dom_digest(self.D)
+        self.objects0 = sorted((n, o.type.name) for n, o in self.P.objects.items())
+        self.alerts = []
         self.expected = None
 
     def key(self):
@@ -200,7 +202,16 @@ def do_event(w: WorldC07, e):
         return ("serialize", w.state_vals[e[1]].key()), show(guard(
             lambda: sorted(sexp.dumps(x) for x in sexp.read(w.states[e[1]].serialize())[1:])))
     if kind == "print":
-        return ("print",), show(guard(lambda: [sexp.dumps(sexp.read(str(a.preconditions))) for a in w.D.actions.values()]))
+        def q():
+            out = [sexp.dumps(sexp.read(str(a.preconditions))) for a in w.D.actions.values()]
+            # the printing properties of operators (kept ones and a fresh one) and of states
+            ops = list(w.ops) + [operator(w.D, CALLS[0][0], list(CALLS[0][1]), w.P.objects)]
+            for op in ops:
+                out.append([str(op), op.typed_action_call])
+            for st in w.states:
+                out.append(sorted(sexp.dumps(x) for x in sexp.read(st.typed_serialize())[1:]) if hasattr(st, "typed_serialize") else None)
+            return out
+        return ("print", tuple(w.op_calls), tuple(s.key() for s in w.state_vals)), show(guard(q))
     if kind == "export":
         from pddl_plus_parser.exporters import DomainExporter
         return ("export",), show(guard(lambda: sexp.dumps(sexp.read(DomainExporter().extract_domain(w.D)))))
@@ -253,8 +264,21 @@ def do_event(w: WorldC07, e):
         d.mkdir(exist_ok=True)
         (d / "domain-x.pddl").write_text(OTHER_T.replace("o1", "ma"))
         (d / "domain-y.pddl").write_text(OTHER_T.replace("o1", "ma").replace("zp", "zr").replace("za", "zc"))
-        res = guard(lambda: MultiAgentDomainsConverter(d).locate_domains())
-        return ("combine",), show(guard(lambda: (sorted(res.types.keys()), sorted(res.actions.keys()))))
+        def q():
+            conv = MultiAgentDomainsConverter(d)
+            res = conv.locate_domains()
+            first = (sorted(res.types.keys()), sorted(res.actions.keys()), sorted(res.predicates.keys()))
+            # the result handed out stays what it was when the same converter is asked again, differently
+            conv.locate_domains(add_dummy_actions=True)
+            after = (sorted(res.types.keys()), sorted(res.actions.keys()), sorted(res.predicates.keys()))
+            again = conv.locate_domains()
+            third = (sorted(again.types.keys()), sorted(again.actions.keys()), sorted(again.predicates.keys()))
+            return [first, after, third]
+        out = guard(q)
+        if not isinstance(out, Raised) and not (out[0] == out[1] == out[2]):
+            w.alerts.append(f"a combined domain handed out by a converter changed when the same converter was asked again, or "
+                            f"the converter answered the same question differently: {out}")
+        return ("combine",), show(out)
     raise ValueError(e)
 
 
@@ -314,6 +338,14 @@ def invariant(r, w: WorldC07, hist):
     if guard(dom_digest, w.second) != w.second_digest:
         r.fail("other-domain-modified", f"after history {hist} an independently parsed domain changed", "unchanged",
                "changed", tags=[hist[-1][0]])
+        return False
+    if w.alerts:
+        r.fail("result-modified", f"after history {hist}: {w.alerts[0][:600]}", "unchanged", "changed", tags=[hist[-1][0]])
+        return False
+    objs_now = guard(lambda: sorted((n, o.type.name) for n, o in w.P.objects.items()))
+    if objs_now != w.objects0:
+        r.fail("problem-modified", f"after history {hist} the problem's object table changed: {w.objects0} -> {objs_now}",
+               str(w.objects0), str(objs_now), tags=[hist[-1][0]])
         return False
     dt = guard(default_types_digest)
     if dt != w.defaults:
